@@ -37,4 +37,13 @@ for v in variants:
     finally:
         shutil.rmtree(d, ignore_errors=True)
 print(f"selftest property={prop} variants={len(variants)} ran={ran} missed={missed} skipped={skipped}")
+# record the self-test in the property's evidence (thorough tier)
+try:
+    ep = f'/verif/evidence/{prop}.json'
+    ev = json.load(open(ep))
+    ev['coverage']['selftest'] = {'variants': len(variants), 'ran': ran, 'detected': ran - missed, 'missed': missed, 'skipped_anchor_absent': skipped,
+        'note': 'each variant is one edit applied to a scratch copy; the named rule must report it'}
+    json.dump(ev, open(ep, 'w'), indent=1)
+except Exception as e:
+    print('could not record self-test in evidence:', e)
 sys.exit(1 if missed else 0)
